@@ -209,7 +209,7 @@ def run(ctx):
         m, info, mode, base, accmode, opts = case
         n, _, _ = nl.normalize(m)
         return judge(n, mode, base, accmode, opts, res, known)
-    res = hyp.run_property(ctx, cases(), check, ctx.pick(6000, 150000), known_keys=known, time_budget=ctx.pick(300, 3600))
+    res = hyp.run_property(ctx, cases(), check, ctx.pick(6000, 150000), known_keys=known, time_budget=ctx.pick(300, 900))
     return common.finish(ctx, res, "exploration", RULE,
                          ["Python's json module with parse_constant rejecting NaN/Infinity defines 'valid JSON'",
                           "constraint short type names are the first acc: option name with ':' replaced by '_'"])
